@@ -55,6 +55,17 @@ RULE = ("cases = corpus + N generated (rule set of 1-4 rules, fact store). Facts
         "rebuilds part of it, writes through Facts::set / Facts::set_nested (existing path, missing root, non-object on the way: Err ignored) or hands the "
         "content over in a new Facts object (add_value, merge, snapshot + restore, to_context + from_context). The variant bits other than `new` do not "
         "concern the model (same prediction: the twin doors must behave the same); caller edits are C01.applyCaller in model and oracle. "
+        "(f) extreme-number family (N/5 cases, last): facts x y z w / p.mass p.volume p.k hold tiny non-zero floats (subnormal, min normal, both sides of "
+        "f64::EPSILON, both signs), huge ones (results overflow to +-inf / underflow to 0), floats and integers around 2^53 and 2^63, -0.0, NaN, +-inf, "
+        "i64::MIN / i64::MAX and neighbours, numeric strings of those classes (\"1e-300\", \"NaN\", \"1e400\", \"-0\"), mixed with ordinary numbers, in EVERY operand "
+        "position of + - * / % (1..3 operators, uniform; numerals incl. 1e300, inf, NaN, 9223372036854775807/8) on the left of arithmetic conditions (right side: numeral, "
+        "a field aimed at the exact value / a neighbouring double / the negation / the same number in the other numeric class, or more arithmetic), on the right of field "
+        "comparisons, in assignments (first action judged by read-back; self-modifying `x = x * y` over 1..4 cycles), and on both sides of all six comparisons and `in` as "
+        "field / literal / field reference; now and then with variant bits and 1..2 later calls after the caller replaced an operand by another extreme number. The same "
+        "pools are mixed into the ordinary stream (n1/n2 arithmetic material 1/12, special scalars). "
+        "Oracle clause for calls that end in Err/panic: beyond the last reported firing, in-domain rules whose condition does not hold are passed over and the first one "
+        "whose condition holds must have stored its assignments - if every right-hand side is defined (first action in Spec.wfRhs on the pre-state, later ones literals) the "
+        "error is the failure reads_back:error_instead_of_store. "
         "non-trivial = at least one rule was judged in-domain with >= 2 leaves or a judged read-back; distinct = distinct case text.")
 TRUSTED = [
     "Lean 4.33 kernel; axioms of every property theorem within {propext, Classical.choice, Quot.sound} (audited each run)",
@@ -71,7 +82,11 @@ ASSUMPTIONS = [
     "no field token is present both as a flat dotted key and as a nested path, no _retracted_<object> marker for the object read, a quoted string literal "
     "on the right of a field comparison does not name a fact, arithmetic text contains no parenthesis / signed operand / operator character inside a quoted operand "
     "(each exclusion has a machine-checked ..._counterexample)",
-    "generated float literals in rule text are short decimals that are exactly representable (so the driver's decimal reader and Rust's agree); floats in facts are arbitrary bit patterns",
+    "generated float literals in rule text are short decimals that are exactly representable, or one of a fixed list of extreme numerals / numeric strings (1e-300, 5e-324, 1.5e-18, 2.5e-16, "
+    "1e300, 1e400, 9007199254740993, 9223372036854775808, inf, NaN ...) on which the driver's decimal reader was checked bit-for-bit against Rust's; floats in facts are arbitrary bit patterns",
+    "the documented semantics is defined for every non-zero divisor of any magnitude (the only undefined division is by a value == 0.0, i.e. +0.0 / -0.0 / integer 0); "
+    "overflow to +-inf, underflow to 0, NaN operands and integers beyond 2^53 (which lose exactness because the code computes in f64 and casts back saturating) are IN the domain "
+    "and judged with the f64 meaning",
 ]
 
 
